@@ -45,6 +45,8 @@ var rules = map[string]string{
 // list-based model cannot run in reasonable time)
 var extraChecks = map[string]func(r *rng, tier string, res *Result){
 	"C15": c15LargeGarbage,
+	"C03": cBackgroundDuringRecovery,
+	"C04": cBackgroundDuringRecovery,
 }
 
 var specialGens = map[string]func(r *rng, tier string, res *Result){
